@@ -42,6 +42,28 @@ def run(repo, chk):
     rule_stream_guard(repo, chk)
     rule_version(repo, chk)
     rule_abort(repo, chk)
+    rule_gzip(repo, chk)
+
+
+def rule_gzip(repo, chk):
+    """The gzip tool replaces the body by a generator that runs after the header block has been written: it must not be able to fail for a reason known beforehand.
+    Its trailer packs two 32-bit numbers; zlib.crc32() and the running size are unsigned."""
+    chk.rule('C15.k', 'the gzip body generator packs CRC and size into unsigned 32-bit fields, masked to 32 bits (a signed field raises struct.error for every CRC >= 2**31, after '
+                      'the header block is out)')
+    f = repo.func('circuits/web/utils.py', 'compress')
+    chk.touch(f)
+    packs = [c for c in calls_in(f.node) if call_name(c) == 'struct.pack' and c.args and isinstance(c.args[0], ast.Constant)]
+    need(packs, 'C15.k: compress() packs nothing')
+    for c in packs:
+        fmt = c.args[0].value
+        for ch, a in zip([x for x in fmt if x.isalpha()], c.args[1:]):
+            names = Q.names_used(a)
+            if 'crc' in names or 'size' in names or any('crc' in x for x in names):
+                which = 'crc' if any('crc' in x for x in names) else 'size'
+                unsigned = ch in 'LIQ'
+                masked = '& 4294967295' in src(a) or '& 0xFFFFFFFF' in src(a).replace('f', 'F').replace('0XF', '0xF') or '0xffffffff' in src(a).lower()
+                chk.ob('k', f.ref, f'the {which} of the gzip trailer is packed as an unsigned 32-bit number, reduced to 32 bits', unsigned and masked, loc(f, c),
+                       detail=f'format `{ch}`, value `{src(a)}`', discr=f'gzip-trailer-unsigned:{which}')
 
 
 def rule_prepare(repo, chk):
